@@ -17,7 +17,8 @@ Counter = collections.Counter
 OP_BUDGET = 40000
 ALPHA = ['a', 'b', 'c', 'x1', 'a b', '']
 ALPHA17 = ['a', 'b', 'x1', 'class', 'a b', '1x', 'a.b', '', 'get2', 'c',
-           '\u00e9t\u00e9', 'n\u00f1', 'None', 'd', 'e', 'f_g', 'handles', 'maps']
+           '\u00e9t\u00e9', 'n\u00f1', 'None', 'd', 'e', 'f_g', 'handles', 'maps',
+           '__meta__', '__', '___', '__icon.png__', '_x', '_']
 SPLIT = '/'
 
 
@@ -57,6 +58,7 @@ class HState:
         self.paths = set()          # access paths used in this epoch
         self.epochs = 1
         self.inserted = False
+        self.aliased = False        # stored under more than one name
         self.wrap = False           # its class overrides __call__
         self.wrapper = None
 
@@ -99,7 +101,7 @@ class EqRaises:
 
 VCODES = ['none', 'zero', 'fzero', 'empty_str', 'empty_tuple', 'list',
           'falsy', 'bool_raises', 'eq_true', 'eq_false', 'eq_raises', 'obj',
-          'world']
+          'world', 'ellipsis', 'notimpl']
 FALSY = {'none', 'zero', 'fzero', 'empty_str', 'empty_tuple', 'list',
          'falsy', 'bool_raises'}
 
@@ -150,10 +152,20 @@ class Interp:
                 it.inner_loads += 1
                 return object()
 
+        class ArgMap(d.ResourceMap):
+            """A map class that cannot be built without arguments: maps
+            created implicitly are plain ResourceMaps, never instances of
+            the receiver's class."""
+            def __init__(self, tag):
+                super().__init__()
+                self.tag = tag
+
+        self.ArgMap = ArgMap
         self.InnerHandle = InnerHandle
         self.inner_loads = 0
         self.CountingHandle = CountingHandle
-        self.root = MMap('R', d.ResourceMap())
+        self.root = MMap('R', ArgMap('root') if self.cfg.get('root_sub')
+                         else d.ResourceMap())
         self.maps = {'R': self.root}        # map id -> MMap
         self.h = {}                         # handle id -> HState
         self.snaps = {}                     # snap id -> (static, model)
@@ -173,6 +185,8 @@ class Interp:
                 'falsy': Falsy, 'bool_raises': BoolRaises,
                 'eq_true': EqTrue, 'eq_false': EqFalse,
                 'eq_raises': EqRaises, 'obj': object,
+                'ellipsis': lambda: Ellipsis,   # singletons a cache might
+                'notimpl': lambda: NotImplemented,  # use as "nothing yet"
                 'world': d.World, 'via': object,
                 'clearer': object, 'inner': self.InnerHandle,
                 'selfh': object}[vcode]()
@@ -319,6 +333,18 @@ class Interp:
                 return None
             self.probes['displaced_object_reinserted'] += 1
             return ('map' if isinstance(ref, str) else 'handle', node)
+        if spec['kind'] == 'alias':
+            # a handle that sits in the tree already is stored under one
+            # more name (C12: one more access path; its back-link is then
+            # ambiguous and not judged any more)
+            node = self.h.get(spec['ref'])
+            if node is None or not node.inserted or self.prop != 'C12':
+                return None
+            if spec['ref'] not in self.contained()[1]:
+                return None
+            node.aliased = True
+            self.probes['handle_under_two_names'] += 1
+            return ('handle', node)
         if spec['kind'] == 'handle':
             hid = spec['id']
             if hid in self.h:
@@ -334,7 +360,10 @@ class Interp:
         mid = spec['id']
         if mid in self.maps:
             return None
-        mm = MMap(mid, d.ResourceMap())
+        mm = MMap(mid, self.ArgMap(mid) if spec.get('sub')
+                  else d.ResourceMap())
+        if spec.get('sub'):
+            self.probes['map_subclass_instance'] += 1
         self.maps[mid] = mm
         for item in spec.get('children', []):
             if item == 'LAYER':
@@ -480,7 +509,8 @@ class Interp:
         nlayers = sum(1 for layer in target.layers if layer)
         for layer in target.layers:
             for hid in layer.values():
-                kids.append((self.h[hid].obj, f'h{hid}'))
+                if not self.h[hid].aliased:
+                    kids.append((self.h[hid].obj, f'h{hid}'))
         try:
             with kernel.budget(OP_BUDGET):
                 target.obj.clear()
@@ -631,17 +661,24 @@ class Interp:
         target = self.resolve(mpath)
         if target is None or target.obj is None or sid in self.snaps:
             return 'skip'
-        if self.k3_shape(target):
-            if 'K3' in self.tolerate:
-                return 'skip'
+        k3 = self.k3_shape(target) and 'K3' in self.tolerate
         try:
             with kernel.budget(OP_BUDGET):
                 s = target.obj.get_static_map()
         except SimHang as e:
             self.fail('C17', 'hang', f'get_static_map: {e}')
         except Exception as e:
+            if k3 and isinstance(e, AttributeError):
+                # known finding K3 (a __x name): no snapshot this time; the
+                # snapshots taken after the name is gone are judged as usual
+                self.known['K3'] += 1
+                self.probes['snapshot_failed_then_tree_repaired'] += 0
+                self.k3_failed = True
+                return None
             self.fail('C17', 'snapshot_raised', f'get_static_map() raised '
                       f'{type(e).__name__}: {e}')
+        if getattr(self, 'k3_failed', False) and not self.k3_shape(target):
+            self.probes['snapshot_failed_then_tree_repaired'] += 1
         model = self.snap_model(target)
         self.snaps[sid] = (s, model)
         depth = self.model_depth(model)
@@ -787,7 +824,8 @@ class Interp:
                 if o is not self.h[hid].obj:
                     self.fail('C11', 'get_mismatch', f'{where}: layer {li} '
                               f'name {name!r} is not handle h{hid}')
-                if o.parent is not real or o.key != name:
+                if (o.parent is not real or o.key != name) \
+                        and not self.h[hid].aliased:
                     self.fail('C11', 'backlink', f'handle h{hid} stored '
                               f'under {where!r} as {name!r} (layer {li}) has '
                               f'parent {"ok" if o.parent is real else "wrong"}'
@@ -799,6 +837,10 @@ class Interp:
             o = real.maps[name]
             if sub.obj is None:
                 sub.obj = o             # implicit map: adopt by observation
+                if type(o) is not self.desper.ResourceMap:
+                    self.fail('C11', 'get_mismatch', f'{where}: the map '
+                              f'created implicitly for {name!r} is a '
+                              f'{type(o).__name__}, not a plain ResourceMap')
             if o is not sub.obj:
                 self.fail('C11', 'get_mismatch', f'{where}: sub-map '
                           f'{name!r} is not the object that was assigned')
@@ -959,6 +1001,8 @@ class GenState:
     def map_spec(self, depth, prefix):
         rng = self.rng
         spec = {'kind': 'map', 'id': f'm{self.new_id()}', 'children': []}
+        if rng.random() < .15:
+            spec['sub'] = True          # an instance of a map subclass
         r = rng.random()
         n = 0 if r < .35 else rng.randint(1, 3)
         used = []
@@ -979,6 +1023,8 @@ class GenState:
     def valspec(self, depth, prefix):
         if depth == 0 and self.all_ids and self.rng.random() < .1:
             return {'kind': 'reuse', 'ref': self.rng.choice(self.all_ids)}
+        if self.prop == 'C12' and self.hids and self.rng.random() < .08:
+            return {'kind': 'alias', 'ref': self.rng.choice(self.hids)}
         if self.rng.random() < .62 or depth >= 2:
             spec = self.handle_spec()
             self.all_ids.append(spec['id'])
@@ -998,8 +1044,8 @@ def generate(prop, run_seed, tier='quick', tolerate=frozenset()):
     crng = kernel.stream(run_seed, 'cfg')
     rng = kernel.stream(run_seed, 'gen')
     alpha = list(ALPHA17 if prop == 'C17' else ALPHA)
-    if prop == 'C17' and 'K3' not in tolerate and crng.random() < .05:
-        alpha.append('__x')
+    if prop == 'C17' and crng.random() < .07:
+        alpha.append('__x')      # known finding K3 while it stays in the map
     k = crng.randint(3, len(alpha))
     alpha = crng.sample(alpha, k)
     gs = GenState(prop, rng, alpha, tolerate)
@@ -1043,7 +1089,8 @@ def generate(prop, run_seed, tier='quick', tolerate=frozenset()):
     heq = crng.choice([None, None, None, None, 'equal', 'unhashable']) \
         if prop == 'C11' else crng.choice([None] * 6 + ['equal'])
     return {'format': 1, 'engine': 'restree',
-            'config': {'alphabet': alpha, 'heq': heq},
+            'config': {'alphabet': alpha, 'heq': heq,
+                       'root_sub': crng.random() < .15},
             'ops': ops, 'scripts': {}}
 
 
@@ -1112,7 +1159,7 @@ PROBES = {
     'C11': ['implicit_intermediate_created', 'handle_replaced_by_map',
             'map_replaced_by_handle', 'layered_name_reassigned',
             'clear_layered', 'assign_into_submap', 'empty_key_component',
-            'displaced_object_reinserted'],
+            'displaced_object_reinserted', 'map_subclass_instance'],
     'C12': ['falsy_value_reaccessed', 'path.call', 'path.getitem_root',
             'path.getitem_sub', 'path.getitem_chain', 'path.get_call',
             'path.static_attr', 'path.static_item', 'path.static_get',
@@ -1120,8 +1167,9 @@ PROBES = {
             'clear_from_inside_a_load', 'handle_valued_resource',
             'eq_raises_value', 'load_failed',
             'load_failed_then_retry', 'clear_between_accesses',
-            'handle_overriding_call'],
+            'handle_overriding_call', 'handle_under_two_names'],
     'C17': ['non_identifier_name', 'layered_snapshot',
             'nested_setattr_rejected', 'setattr_rejected',
-            'snapshot_then_mutate_map', 'handle_overriding_call'],
+            'snapshot_then_mutate_map', 'handle_overriding_call',
+            'snapshot_failed_then_tree_repaired'],
 }
